@@ -61,7 +61,7 @@ func genGsm7(g *genCtx) {
 	n := 0
 	emit := func(c Case) {
 		if g.mine(n) {
-			if k := caseStr(c, "k"); n%3 == 1 && (k == "seq" || k == "text" || k == "septets") {
+			if k := caseStr(c, "k"); n%3 == 1 && (k == "seq" || k == "text" || k == "septets" || k == "windows") {
 				c["pre"] = 1 + n/3 // the call follows a series of refused calls (afterRefusals)
 			}
 			g.emit(c)
@@ -114,6 +114,17 @@ func genGsm7(g *genCtx) {
 					}
 					emit(Case{"k": "seq", "s": B(s)})
 				}
+			}
+		}
+		// windows of one array: 8k+7 septets per window is where the packer adds the CR filler
+		for _, w := range []int{7, 15, 23, 8, 9, 151, 153} {
+			for rep := 0; rep < 3; rep++ {
+				L := w*3 + r.Intn(2*w)
+				sw := randBytes(r, L)
+				for j := range sw {
+					sw[j] &= 0x7f
+				}
+				emit(Case{"k": "windows", "s": B(sw), "w": w})
 			}
 		}
 		// random sequences up to 2000 septets
@@ -226,6 +237,12 @@ func guardT(f func(), site string) (panicked, hung bool) {
 	}
 }
 
+// stream transformers that live as long as the process and are used again and again (transform.Bytes resets them)
+var (
+	reusedEncU, reusedEncP = gsm7.GSM7(false).NewEncoder(), gsm7.GSM7(true).NewEncoder()
+	reusedDecU, reusedDecP = gsm7.GSM7(false).NewDecoder(), gsm7.GSM7(true).NewDecoder()
+)
+
 func runGsm7(c Case, tr *Tracer) {
 	if k := caseInt(c, "pre"); k > 0 {
 		afterRefusals(k)
@@ -250,6 +267,26 @@ func runGsm7(c Case, tr *Tracer) {
 			tr.emit(Ev{"ev": "DecPacked", "s": B(s), "o": B(packed), "out": scalars(string(out)), "err": err != nil, "panic": p, "site": "GSM7Packed.Decode"})
 			p = guard(func() { out, _, err = transform.Bytes(gsm7.GSM7(true).NewDecoder(), packed) })
 			tr.emit(Ev{"ev": "DecPacked", "s": B(s), "o": B(packed), "out": scalars(string(out)), "err": err != nil, "panic": p, "site": "GSM7(true).Decoder"})
+			p = guard(func() { out, _, err = transform.Bytes(reusedDecP, packed) })
+			tr.emit(Ev{"ev": "DecPacked", "s": B(s), "o": B(packed), "out": scalars(string(out)), "err": err != nil, "panic": p, "site": "GSM7(true).Decoder.reused"})
+		}
+	case "windows":
+		// a long message packed window by window out of ONE septet array (what a splitter does): every call
+		// sees the caller's septets, also behind the window it was given
+		orig := caseBytes(c, "s")
+		w := caseInt(c, "w")
+		buf := append(make([]byte, 0, len(orig)+16), orig...)
+		for a := 0; a < len(orig); a += w {
+			b := a + w
+			if b > len(orig) {
+				b = len(orig)
+			}
+			var packed []byte
+			if guard(func() { packed = gsm7.Pack(buf[a:b]) }) {
+				tr.emit(Ev{"ev": "Pack", "s": B(orig[a:b]), "out": []int{-1}, "site": "Pack.window"})
+				continue
+			}
+			tr.emit(Ev{"ev": "Pack", "s": B(orig[a:b]), "out": B(packed), "site": "Pack.window"})
 		}
 	case "text":
 		text := scalarsToString(c["text"])
@@ -261,6 +298,11 @@ func runGsm7(c Case, tr *Tracer) {
 			out = nil
 		}
 		tr.emit(Ev{"ev": "Enc", "text": sc, "out": B(out), "err": err2 != nil, "site": "GSM7(false).Encoder"})
+		out, _, err2 = transform.Bytes(reusedEncU, []byte(text))
+		if err2 != nil {
+			out = nil
+		}
+		tr.emit(Ev{"ev": "Enc", "text": sc, "out": B(out), "err": err2 != nil, "site": "GSM7(false).Encoder.reused"})
 		out, err2 = datacoding.GSM7Unpacked(text).Encode()
 		if err2 != nil {
 			out = nil
@@ -277,6 +319,11 @@ func runGsm7(c Case, tr *Tracer) {
 			out = nil
 		}
 		tr.emit(Ev{"ev": "EncPacked", "text": sc, "out": B(out), "err": err2 != nil, "site": "GSM7(true).Encoder"})
+		out, _, err2 = transform.Bytes(reusedEncP, []byte(text))
+		if err2 != nil {
+			out = nil
+		}
+		tr.emit(Ev{"ev": "EncPacked", "text": sc, "out": B(out), "err": err2 != nil, "site": "GSM7(true).Encoder.reused"})
 	case "septets":
 		s := caseBytes(c, "s")
 		dec, err := gsm7.Decode(s)
@@ -286,6 +333,11 @@ func runGsm7(c Case, tr *Tracer) {
 			dec = nil
 		}
 		tr.emit(Ev{"ev": "Dec", "s": B(s), "out": scalars(string(dec)), "err": err != nil, "site": "GSM7(false).Decoder"})
+		dec, _, err = transform.Bytes(reusedDecU, s)
+		if err != nil {
+			dec = nil
+		}
+		tr.emit(Ev{"ev": "Dec", "s": B(s), "out": scalars(string(dec)), "err": err != nil, "site": "GSM7(false).Decoder.reused"})
 		dec, err = datacoding.GSM7Unpacked(s).Decode()
 		if err != nil {
 			dec = nil
